@@ -621,6 +621,7 @@ BOUND_LIB = """module bm
     procedure, nopass :: tb_nopass => bimpl_none
     procedure :: tb_short_upper => S
     procedure :: tb_keyword_part => UB
+    procedure :: tb_two_a => bimpl_first, tb_two_b => bimpl_first
   end type bt
 contains
   subroutine S(me, x, y)
@@ -649,12 +650,12 @@ contains
 end module bm
 """
 # (the last two: implementations whose upper-case names also occur inside the word SUBROUTINE of the hover text)
-BOUND_NAMES = ["tb_default", "tb_pass", "tb_pass_spaced", "tb_pass_upper", "tb_nopass", "tb_short_upper", "tb_keyword_part"]
+BOUND_NAMES = ["tb_default", "tb_pass", "tb_pass_spaced", "tb_pass_upper", "tb_nopass", "tb_short_upper", "tb_keyword_part", "tb_two_a", "tb_two_b"]
 
 
 BOUND_IMPL = {"tb_default": ("bimpl_first", ["me", "x", "y"]), "tb_pass": ("bimpl_mid", ["x", "me", "y"]), "tb_pass_spaced": ("bimpl_mid", ["x", "me", "y"]),
               "tb_pass_upper": ("bimpl_last", ["x", "y", "me"]), "tb_nopass": ("bimpl_none", ["x", "y"]), "tb_short_upper": ("S", ["me", "x", "y"]),
-              "tb_keyword_part": ("UB", ["me", "x", "y"])}
+              "tb_keyword_part": ("UB", ["me", "x", "y"]), "tb_two_a": ("bimpl_first", ["me", "x", "y"]), "tb_two_b": ("bimpl_first", ["me", "x", "y"])}
 
 
 def bound_case(job, acc: Acc):
@@ -708,6 +709,15 @@ def bound_case(job, acc: Acc):
     if first != norm(f"SUBROUTINE {name}(x, y)"):
         acc.violation(Violation("bound_signature", {"family": "bound_signature", "binding": name, "obs": "hover_signature_line"},
                                 {"binding": name, "order": order, "text": text, "line": ln}, f"SUBROUTINE {name}(x, y)", code[:2], what=f"hover of ob%{name}: {code[1:2]}"))
+    # ... and the same on the binding name in the statement that declares it (possibly the second binding of the statement)
+    dl = next(i for i, t in enumerate(lines) if re.search(rf"\b{name} =>", t))
+    h = s.result("textDocument/hover", Server.tdpp(path, dl, lines[dl].index(name + " =>") + 2))
+    code = (h or {}).get("contents", {}).get("value", "").split("\n")
+    first = norm(code[1]) if len(code) > 1 else ""
+    if first != norm(f"SUBROUTINE {name}(x, y)"):
+        acc.violation(Violation("bound_signature", {"family": "bound_signature", "binding": name, "obs": "hover_at_declaration"},
+                                {"binding": name, "order": order, "text": text, "line": dl}, f"SUBROUTINE {name}(x, y)", code[:2],
+                                what=f"hover of {name} in {lines[dl].strip()!r}: {code[1:2]}"))
 
 
 def _in_plain_paren(line, col):
